@@ -161,8 +161,16 @@ def run(u, scratch, tier, repo, verif):
     if jobs:
         cmd += ["-j", str(jobs), "--output-format=terse"]
     res["cmd"] = "cd <scratch copy of /repo> && " + " ".join(cmd)
-    rc, out, timed_out = _run(cmd, dst, env, u.get("timeout_s", 1500), u.get("mem_gb"))
-    subprocess.call(["pkill", "-x", "cbmc"], stderr=subprocess.DEVNULL) if timed_out else None
+    # the cargo target dir is shared between checks (C07 and C08 both build this unit): serialize on it, a
+    # concurrent `cargo kani` in the same target dir truncates the other's goto binaries
+    import fcntl
+    lockf = open(os.path.join(cache, ".verif.lock"), "w")
+    fcntl.flock(lockf, fcntl.LOCK_EX)
+    try:
+        rc, out, timed_out = _run(cmd, dst, env, u.get("timeout_s", 1500), u.get("mem_gb"))
+    finally:
+        fcntl.flock(lockf, fcntl.LOCK_UN)
+        lockf.close()
     res["wall"] = time.time() - t0
     logp = os.path.join(scratch, f"kani_{u['name']}.log")
     open(logp, "w").write(out)
